@@ -240,24 +240,46 @@ class BuiltinMixin:
         nm = s_of(name.term)
         outs = []
         cur = st
-        special = set()
-        for c in self.candidate_classes(st, obj):
-            for k in c.mro:
-                if not k.external:
-                    special.update(k.methods.keys())
-        feasible_special = []
-        for m in sorted(special):
-            cond = nm == S(m)
+        # names defined by the static class (and its bases): class-level members for every possible receiver
+        base = {}
+        for k in obj.cls.mro:
+            if not k.external:
+                for n_, f_ in k.methods.items():
+                    base.setdefault(n_, f_)
+        sub = set()
+        if not obj.exact:
+            for c in self.candidate_classes(st, obj):
+                for k in c.mro:
+                    if not k.external:
+                        sub.update(n_ for n_ in k.methods if n_ not in base)
+        plain = sorted(n_ for n_, f_ in base.items() if f_.kind == 'method')
+        others = sorted(n_ for n_, f_ in base.items() if f_.kind != 'method')
+        for m in others:
             if cur is None:
                 break
-            if self.feasible(cur, cond):
-                feasible_special.append(m)
-        for m in feasible_special:
             yes, cur = self.fork(cur, nm == S(m))
             if yes is not None:
                 outs.extend(self.getattr_v(yes, obj, m, node))
-            if cur is None:
-                break
+        if cur is not None and plain:
+            # an ordinary method of the class: ONE branch with a method object bound to the receiver, named as asked
+            yes, cur = self.fork(cur, OR(*[nm == S(m) for m in plain]))
+            if yes is not None:
+                o = self.alloc(yes, self.cls('method'))
+                r = r_of(o.term)
+                self.hstore(yes, r, '__self__', obj.term)
+                self.hstore(yes, r, '__name__', strv(nm))
+                outs.append(Out('ok', yes, SV(o.term, 'ref', self.cls('method'), True)))
+        if cur is not None and sub:
+            # a name that only some subclasses define at class level: for those receivers the value is not the heap cell
+            cond = OR(*[nm == S(m) for m in sorted(sub)])
+            if self.feasible(cur, cond):
+                s2 = cur.copy()
+                s2.assume(cond)
+                v = SV(smt.fresh('submember', Val))
+                s2.assume(self.older(s2, v.term))
+                self.assumptions_used.add('getattr(obj, <name>) for a name that only some subclasses define at class level: an arbitrary '
+                                          'value (or the instance attribute), evaluated without side effects')
+                outs.append(Out('ok', s2, v))
         if cur is not None:
             val = self.hload(cur, r_of(obj.term), nm)
             cur.assume(self.older(cur, val))
@@ -477,6 +499,8 @@ class BuiltinMixin:
         if not args.pos:
             return self.ok(st, self.new_dict(st, self.cls('set')))
         (v,) = self.one_pos(args, 1, 'set')
+        if isinstance(v, SV) and v.cls is None:
+            v = self.probe_class(st, v)
         if isinstance(v, SV) and v.cls is not None and v.cls.qualname in ('set', 'frozenset'):
             d = self.alloc(st, self.cls('set'))
             r, rr = r_of(d.term), r_of(v.term)
